@@ -195,6 +195,18 @@ def truth(v: V) -> Optional[bool]:
 
 
 _LOCAL_FUNCS: Dict[int, ast.AST] = {}
+# attributes of the exception most recently raised by a platform hook (`ModuleNotFoundError.name`, ...): exceptions travel
+# as class names; a handler that binds the exception (`except E as exc`) gets them back as fields of the bound record
+LAST_EXC: Dict[str, Any] = {}
+
+
+def raise_exc(st: "State", _cls: str, **attrs: Any) -> None:
+    if st.pending is None:
+        st.pending = _cls
+        LAST_EXC.clear()
+        LAST_EXC.update({"cls": _cls, "attrs": attrs})
+
+
 _FRAME_COUNTER = [0]
 _FREE_CACHE: Dict[int, Tuple[str, ...]] = {}
 
@@ -1261,7 +1273,8 @@ class Interp:
             return [st]
         if isinstance(s, ast.Raise):
             if s.exc is None:
-                name = "reraise"
+                hd = st.env.get("__handling__")
+                name = hd.v if isinstance(hd, K) and isinstance(hd.v, str) else "reraise"
             else:
                 tgt = s.exc.func if isinstance(s.exc, ast.Call) else s.exc
                 name = (dotted(tgt) or norm(tgt)).split(".")[-1]
@@ -1353,7 +1366,11 @@ class Interp:
                         res.append(o)
                     else:
                         if h.name:
-                            o.env[h.name] = S("exc:" + str(o.term[1]))
+                            if LAST_EXC.get("cls") == str(o.term[1]) and LAST_EXC.get("attrs"):
+                                o.env[h.name] = R("exc", cls=K(str(o.term[1])), **LAST_EXC["attrs"])
+                            else:
+                                o.env[h.name] = S("exc:" + str(o.term[1]))
+                        o.env["__handling__"] = K(str(o.term[1]))  # what a bare `raise` in the handler re-raises
                         o.term = None
                         res.extend(self.run(h.body, o))
                 else:
